@@ -1459,10 +1459,7 @@ func (p *Program) inlineAt(cs *CallSite, cand *inlineCand, tag string, read func
 		})
 		endsRet := false
 		if n := len(fd.Body.List); n > 0 {
-			_, endsRet = fd.Body.List[n-1].(*ast.ReturnStmt)
-			if !endsRet {
-				endsRet = endlessLoop(fd.Body.List[n-1])
-			}
+			endsRet = terminating(fd.Body.List[n-1])
 		}
 		if !bare && endsRet {
 			var g2 strings.Builder
@@ -2106,4 +2103,78 @@ func hoistFail() (ast.Stmt, bool) {
 		fmt.Fprintf(os.Stderr, "normalise: not hoisted (normalise.go:%d)\n", line)
 	}
 	return nil, false
+}
+
+// terminating: the statement never completes normally (Go's "terminating
+// statement", without goto and labelled statements): a return, a panic, an
+// endless loop, an if/else whose branches terminate, a switch with a default
+// whose clauses all terminate and contain no break.
+func terminating(s ast.Stmt) bool {
+	switch x := s.(type) {
+	case *ast.ReturnStmt:
+		return true
+	case *ast.ExprStmt:
+		if call, ok := x.X.(*ast.CallExpr); ok {
+			if id, ok := call.Fun.(*ast.Ident); ok && id.Name == "panic" {
+				return true
+			}
+		}
+		return false
+	case *ast.BlockStmt:
+		return len(x.List) > 0 && terminating(x.List[len(x.List)-1])
+	case *ast.IfStmt:
+		if x.Else == nil {
+			return false
+		}
+		return terminating(x.Body) && terminating(x.Else)
+	case *ast.ForStmt:
+		return endlessLoop(x)
+	case *ast.SwitchStmt, *ast.TypeSwitchStmt:
+		var body *ast.BlockStmt
+		if sw, ok := x.(*ast.SwitchStmt); ok {
+			body = sw.Body
+		} else {
+			body = x.(*ast.TypeSwitchStmt).Body
+		}
+		hasDefault := false
+		for _, cl := range body.List {
+			cc, ok := cl.(*ast.CaseClause)
+			if !ok {
+				return false
+			}
+			if cc.List == nil {
+				hasDefault = true
+			}
+			if len(cc.Body) == 0 {
+				return false
+			}
+			last := cc.Body[len(cc.Body)-1]
+			if br, isBr := last.(*ast.BranchStmt); isBr && br.Tok == token.FALLTHROUGH {
+				continue
+			}
+			if !terminating(last) {
+				return false
+			}
+		}
+		if !hasDefault {
+			return false
+		}
+		// no break that refers to the switch
+		brk := false
+		ast.Inspect(body, func(n ast.Node) bool {
+			switch y := n.(type) {
+			case *ast.FuncLit, *ast.ForStmt, *ast.RangeStmt, *ast.SelectStmt:
+				return false
+			case *ast.SwitchStmt, *ast.TypeSwitchStmt:
+				return n == ast.Node(body) || false
+			case *ast.BranchStmt:
+				if y.Tok == token.BREAK {
+					brk = true
+				}
+			}
+			return true
+		})
+		return !brk
+	}
+	return false
 }
